@@ -5,7 +5,7 @@ EXTENDS FileModel
 
 \* quick / thorough histories: empty, NUL and high bytes, LF inside binary data; lines with LF, CR LF, lone CR
 QBin == { <<>>, <<0>>, <<255, 0, 10>> }
-QTxt == { <<>>, <<97>>, <<98, 10>>, <<13, 10>>, <<99, 13>> }
+QTxt == { <<>>, <<98, 10>>, <<13, 10>>, <<99, 13>> }
 TBin == { <<>>, <<0>>, <<255, 0, 10>>, <<97, 98, 99>> }
 TTxt == { <<>>, <<97>>, <<98, 10>>, <<13, 10>>, <<99, 13>>, <<10>> }
 \* sizes around the 255-byte line chunk and the 65536-byte copy block
